@@ -555,5 +555,52 @@ theorem tmerc_centre_to_false_origin (ellps : Ellipsoid ℝ) (lon0 x0 y0 qs lat0
   rw [hs, hc, h1, TmercLemmas.complexSinTrig_real]
   ring
 
+
+/-! ### somerc -/
+
+/-- **somerc: the projection centre `(lon_0, lat_0)` maps to the false origin `(x_0, y_0)`**, for every
+ellipsoid, scale and latitude of origin: with the constants the constructor stores (`K` built from the
+conformal-sphere latitude `φ₀'` of the centre, whose sine and cosine are stored too) the sphere
+latitude of the centre is `φ₀'`, the rotation takes it to the origin of the oblique sphere, and
+the Mercator of that point is the false origin -/
+theorem somerc_centre_to_false_origin (p : Parsed ℝ) (phi0 phi0P : ℝ)
+    (hP1 : -(Real.pi / 2) < phi0P) (hP2 : phi0P < Real.pi / 2)
+    (hK : Somerc.get p "K" = Real.log (Real.tan (Real.pi / 4 + 1 / 2 * phi0P))
+        - Somerc.get p "c" * Real.log (Real.tan (Real.pi / 4 + 1 / 2 * phi0))
+        + Somerc.get p "c" * ((p.ellps 0).eccentricity * (1 / 2)) *
+            Real.log ((1 + (p.ellps 0).eccentricity * Real.sin phi0) / (1 - (p.ellps 0).eccentricity * Real.sin phi0)))
+    (hs : Somerc.get p "sin_phi_0_p" = Real.sin phi0P) (hc : Somerc.get p "cos_phi_0_p" = Real.cos phi0P) :
+    Somerc.fwd p (Scalar.toRadians (Somerc.get p "lon_0")) phi0 = (Somerc.get p "x_0", Somerc.get p "y_0") := by
+  have one : (@OfScientific.ofScientific ℝ Scalar.instOfScientific 10 true 1) = 1 := by
+    simp [OfScientific.ofScientific, Scalar.ofSci, Lit.toReal]
+  have two : (@OfScientific.ofScientific ℝ Scalar.instOfScientific 20 true 1) = 2 := by
+    simp [OfScientific.ofScientific, Scalar.ofSci, Lit.toReal]; norm_num
+  have four : (@OfScientific.ofScientific ℝ Scalar.instOfScientific 40 true 1) = 4 := by
+    simp [OfScientific.ofScientific, Scalar.ofSci, Lit.toReal]; norm_num
+  have half : (@OfScientific.ofScientific ℝ Scalar.instOfScientific 5 true 1) = 1 / 2 := by
+    simp [OfScientific.ofScientific, Scalar.ofSci, Lit.toReal]; norm_num
+  -- the argument of the exponential is ln tan(π/4 + φ₀'/2)
+  have hu1 : -(Real.pi / 2) < Real.pi / 4 + 1 / 2 * phi0P := by linarith [Real.pi_pos]
+  have hu2 : Real.pi / 4 + 1 / 2 * phi0P < Real.pi / 2 := by linarith [Real.pi_pos]
+  have hu0 : 0 < Real.pi / 4 + 1 / 2 * phi0P := by linarith [Real.pi_pos]
+  have htan : 0 < Real.tan (Real.pi / 4 + 1 / 2 * phi0P) := Real.tan_pos_of_pos_of_lt_pi_div_two hu0 hu2
+  unfold Somerc.fwd
+  simp only [Somerc.fracPi4, Somerc.fracPi2, scalar_pi, scalar_sin, scalar_cos, scalar_tan, scalar_ln, scalar_exp, scalar_atan,
+    scalar_asin, one, two, four, half, sub_self, mul_zero, Real.sin_zero, Real.cos_zero, hK, hs, hc]
+  have hexp : Somerc.get p "c" * (Real.log (Real.tan (Real.pi / 4 + 1 / 2 * phi0)) -
+        (p.ellps 0).eccentricity * (1 / 2) * Real.log ((1 + (p.ellps 0).eccentricity * Real.sin phi0) / (1 - (p.ellps 0).eccentricity * Real.sin phi0))) +
+      (Real.log (Real.tan (Real.pi / 4 + 1 / 2 * phi0P)) - Somerc.get p "c" * Real.log (Real.tan (Real.pi / 4 + 1 / 2 * phi0)) +
+        Somerc.get p "c" * ((p.ellps 0).eccentricity * (1 / 2)) *
+          Real.log ((1 + (p.ellps 0).eccentricity * Real.sin phi0) / (1 - (p.ellps 0).eccentricity * Real.sin phi0))) =
+      Real.log (Real.tan (Real.pi / 4 + 1 / 2 * phi0P)) := by ring
+  rw [hexp, Real.exp_log htan, Real.arctan_tan hu1 hu2]
+  have hphiP : 2 * (Real.pi / 4 + 1 / 2 * phi0P) - Real.pi / 2 = phi0P := by ring
+  rw [hphiP]
+  have hzero : Real.cos phi0P * Real.sin phi0P - Real.sin phi0P * Real.cos phi0P * 1 = 0 := by ring
+  rw [hzero, Real.arcsin_zero]
+  simp only [Real.cos_zero, mul_zero, zero_div, Real.arcsin_zero, add_zero, zero_add]
+  have ht : Real.tan (Real.pi / 4) = 1 := Real.tan_pi_div_four
+  simp [ht]
+
 end C05
 end Geodesy
